@@ -276,7 +276,15 @@ pub(crate) fn handle_submit(
         (state.new_job_id(), true)
     };
 
-    senders.events.on_job_submitted(job_id, &message).unwrap();
+    if let Err(e) = senders.events.on_job_submitted(job_id, &message) {
+        // Nothing has been done with the submit so far, only the job id was reserved
+        if new_job {
+            state.revert_to_job_id(job_id);
+        }
+        return ToClientMessage::Error(format!(
+            "Invalid submit: the submit cannot be stored into the journal: {e}"
+        ));
+    }
 
     let SubmitRequest {
         job_desc,
